@@ -9,7 +9,8 @@ C12 driver. Input lines (one answer line each):
   step <site> <prevcut> <prevlen> <n>      → `<newcut> <newlen>`         (rule + container growth)
   idle <site> <cutoff> <len> <n>           → `<cutoff> <len> <n>`        (non-diagonal moves)
   sweep <cutoff> <before bits> <after bits>→ `<isSweepResult> <n after>`
-  setcut <c> <cutoff> <occ bits>           → `<cutoff> <len> <n>`        (`set_cutoff`)
+  setcut <c> <cutoff> <occ bits>           → `<cutoff> <len> <n>`        (`set_cutoff` / `set_op_cutoff`, generator: c ≥ cutoff)
+  inccut <c> <cutoff> <occ bits>           → `<cutoff> <len> <n>`        (`Qmc::increase_cutoff_to`, any c)
   equalise <cutoffs> <lens>                → `<cutoffs'> <lens'>`        (tempering preamble)
   swap <site> <cutA> <occA> <cutB> <occB>  → `<cutA'> <lenA'> <nA'> <cutB'> <lenB'> <nB'>` (raw `swap_manager_and_state`)
   convert <nvars> <cutoff> <occ bits>      → `<cutoff> <len> <n>`        (`into_qmc`)
@@ -31,6 +32,9 @@ def step (toks : List String) : String :=
   | ["sweep", c, before, after] =>
     let a := parseBits after
     s!"{showBool (isSweepResult (parseNat c) (parseBits before) a)} {countOcc a}"
+  | ["inccut", c, cut, occ] =>
+    let s := CSampler.increaseCutoffTo (parseNat c) { cutoff := parseNat cut, occ := parseBits occ }
+    s!"{s.cutoff} {s.len} {s.n}"
   | ["setcut", c, cut, occ] =>
     let s := CSampler.setCutoff (parseNat c) { cutoff := parseNat cut, occ := parseBits occ }
     s!"{s.cutoff} {s.len} {s.n}"
